@@ -50,7 +50,7 @@ fn reference_varint(bytes: &[u8]) -> Option<(u128, usize)> {
   Some((lo, len))
 }
 
-fn varint_check(case: &VarintCase, cx: &Cx) -> CheckResult {
+pub fn varint_check(case: &VarintCase, cx: &Cx) -> CheckResult {
   match case {
     VarintCase::Value(s) => {
       let n: u128 = s.parse().unwrap();
